@@ -27,8 +27,10 @@ PROP = {
     "level_text": "Proof: un-escaping what the printer's escape_text wrote gives the string back for every string "
                   "(never an error, never the surrogate panic); the printer's quoting decision is_identifier agrees "
                   "with the tokenizer's identifier for every string — both over tables regenerated from the sources; "
-                  "parse(print v) = v (up to integer kinds) for the compact printer on the stated fragment of "
-                  "values.  Correspondence: real print_recon{,_compact,_pretty} = model print (exact text) on generated "
+                  "every text / integer / byte string token is lexed back; parse(print v) = v (up to integer kinds, which "
+                  "Value::eq ignores) and the fixed point after one cycle for the compact printer on the stated fragment "
+                  "of values (strong induction over records/attributes/items), with witnesses that the unrestricted "
+                  "statement is false of the code as it is.  Correspondence: real print_recon{,_compact,_pretty} = model print (exact text) on generated "
                   "model values, real parse_recognize::<Value> = model parse on grammar-generated documents and on "
                   "printer output, monitor for recovery + fixed point on the real code; incremental decoders vs one-shot "
                   "parser under every single cut and random multi-cuts (implementation-vs-implementation), no panic / no "
